@@ -108,6 +108,11 @@ func (t *Trie) GetRangeProof(leftKey, rightKey *felt.Felt, proofSet *ProofNodeSe
 //   - The path bits don't match the key bits
 //   - The proof ends before processing all key bits
 func VerifyProof(root, key *felt.Felt, proof *ProofNodeSet, hash crypto.HashFn) (felt.Felt, error) {
+	// An empty trie (zero root) proves the absence of every key with an empty proof
+	if root.IsZero() && (proof == nil || proof.Size() == 0) {
+		return felt.Zero, nil
+	}
+
 	keyBits := new(Path).SetFelt(contractClassTrieHeight, key)
 	expected := *root
 	h := newHasher(hash, false)
